@@ -525,9 +525,15 @@ func singleStoreLoose(a *ssa.Alloc) ssa.Value {
 func c20SetGuarded(c *Ctx, rule string, fn *ssa.Function) {
 	name := fn.String()
 	n := 0
-	for _, cl := range Calls(fn) {
+	for _, cl := range CallsDeep(fn) {
 		if !IsCallTo(cl, "(go.uber.org/zap.AtomicLevel).SetLevel") {
-			continue
+			// building the result directly at the parsed level is the same installation
+			if !IsCallTo(cl, "go.uber.org/zap.NewAtomicLevelAt") {
+				continue
+			}
+			if _, isConst := ConstInt(Args(cl)[0]); isConst {
+				continue
+			}
 		}
 		n++
 		atoms := AtomStrings(Guards(cl))
